@@ -60,6 +60,9 @@ def generate(rng, idx, tier, variant):
             a = rng.choice([None, None] + list(range(n)))
             b = rng.choice([None, None] + list(range(n)))
             ops.append({'op': 'solve', 'start': a, 'end': b, 'opts': opts, 'interrupt': intr})
+        if rng.random() < 0.12:
+            # the same request made through a linker that wraps the model: it is still this model's period being solved
+            ops[-1]['via_linker'] = True
     return {'spec': spec, 'ops': ops}
 
 
@@ -167,7 +170,19 @@ def execute(schedule, ctx):
         sink = []
         ctl.sink = sink
         undo = probes.install_recorders(m, names, sink)
+        via = bool(op.get('via_linker'))
+        target = fsic.BaseLinker({'A': m}) if via else m
+        if via:
+            ctx.probe('solved-through-a-wrapping-linker:' + op['op'])
+
         def the_call():
+            if via:
+                kw_ = S.solver_kwargs(opts)
+                if op['op'] == 'solve_t':
+                    return target.solve_t(op['t'], **kw_)
+                if op['op'] == 'solve_period':
+                    return target.solve_period(spans.label_forms(sp_now, span, _norm(op['t'], n), op.get('form', 0)), **kw_)
+                return target.solve(start=None if op['start'] is None else span[op['start']], end=None if op['end'] is None else span[op['end']], **kw_)
             if op['op'] == 'solve_t':
                 return m.solve_t(op['t'], **S.solver_kwargs(opts))
             if op['op'] == 'solve_period':
@@ -227,14 +242,18 @@ def execute(schedule, ctx):
         # ---- frame: only cells of the requested periods may change
         bad = [c for c in changed if c[1] not in positions]
         chk('frame/other-period-changed', not bad, {'changed': bad[:8], 'positions': positions, 'op': op['op'], 'opts': opts})
-        if out['kind'] == 'raise' and len(positions) > 1:
+        if out['kind'] == 'raise' and len(positions) > 1 and not via:  # (a linker does not call the submodel's own hooks: the seam log cannot say how far it got)
             # the run stopped part-way: periods after the one being solved (or about to be solved) must be as they were
             reached = max([r['tn'] for r in ctl.log] + [positions[0] - 1]) + 1
             later = [c for c in changed if c[1] > reached]
             chk('frame/later-period-changed-after-failure', not later, {'changed': later[:8], 'stopped-at-or-before': reached, 'positions': positions})
         # ---- up-front rejections change nothing at all
         rejected = False
-        if opts['min_iter'] > opts['max_iter']:
+        if via:
+            # (the linker's own argument checks and numerical policies are C08's business; here the frame, the reads and
+            # the refusal of a period the model cannot be solved for)
+            pass
+        elif opts['min_iter'] > opts['max_iter']:
             rejected = True
             ctx.probe('rejected:min_iter>max_iter')
             chk('reject/min_iter>max_iter-raises', out['kind'] == 'raise', {'got': cls_out})
